@@ -657,6 +657,7 @@ func (pf *Portfolio) check(asserts []*Term, vars []*Term) QueryResult {
 					pf.stats.mu.Unlock()
 				}
 				nextIdx++
+				race.Reset(pf.raceAfter)
 			}
 		case <-hard.C:
 			goto done
